@@ -25,7 +25,7 @@ impl Prop for C12 {
         vec!["only the two fault classes the property names are judged (truncation, reference to something undefined)".into()]
     }
     fn phases(&self, tier: Tier) -> Vec<Phase> {
-        vec![Phase::new("roundtrip", tier.pick(12000, 400000)).min_cases(tier.pick(3000, 80000)).timeouts(120, tier.pick(300, 1500))]
+        vec![Phase::new("roundtrip", tier.pick(12000, 800000)).min_cases(tier.pick(3000, 120000)).timeouts(120, tier.pick(300, 1500))]
     }
     fn worker(&self, _ctx: &WorkerCtx) -> Box<dyn Worker> {
         Box::new(W { vm: None, used: 0 })
